@@ -105,6 +105,9 @@ def run(pid, rep):
         _with_scratch_env()
         cases = [(p, "mutant") for p in muts] + [(os.path.join(d, "patch.diff"), "seeded") for d in seeds] \
             + [(p, "refactor") for p in refs]
+        only = os.environ.get("VERIF_SELFTEST_ONLY")      # developer aid: substring filter
+        if only:
+            cases = [c for c in cases if only in c[0]]
         for path, kind in cases:
             name = os.path.basename(path) if kind != "seeded" else os.path.basename(os.path.dirname(path))
             expect, note = _patch_meta(path)
